@@ -1,11 +1,31 @@
-(* Printing helpers for the correspondence check: every model result becomes a tuple of integers. *)
-From Coq Require Import QArith ZArith List.
+(* NB: no Qred here: Z.gcd on 300-bit numbers costs ~25 ms per value in the VM; the harness reduces fractions itself.
+   Printing helpers for the correspondence check: every model result becomes a tuple of integers. *)
+From Coq Require Import QArith Qabs ZArith List Bool.
+Import ListNotations.
 From PG Require Import Lib.Num Lib.Py.
 Definition exn_code (e : exn) : Z :=
   match e with ParameterError => 1 | CalculationError => 2 | ParsingError => 3 | KeyError => 4 | TypeError => 5
              | ZeroDivisionError => 6 | ValueError => 7 | AttributeError => 8 | FellOffEnd => 9 end%Z.
 Definition showq (r : res Q) : Z * Z * Z :=
   match r with
-  | Ok q => let q' := Qred q in (0%Z, Qnum q', Zpos (Qden q'))
+  | Ok q => (0%Z, Qnum q, Zpos (Qden q))
   | Err e => (exn_code e, 0%Z, 0%Z) end.
-Definition showqv (q : Q) : Z * Z * Z := let q' := Qred q in (0%Z, Qnum q', Zpos (Qden q')).
+Definition showqv (q : Q) : Z * Z * Z := (0%Z, Qnum q, Zpos (Qden q)).
+
+(* Comparison INSIDE Coq (printing 300-digit integers is what is slow, not computing them):
+   a binary64 value is passed as mantissa and exponent, fl m e = m * 2^e exactly. *)
+Definition fl (m e : Z) : Q := inject_Z m * Qpower (2 # 1) e.
+(* |q - p| <= tol * max(|q|,|p|), tol = tn / td *)
+Definition close_q (tn td : Z) (q p : Q) : bool :=
+  Qle_bool (Qabs (q - p) * inject_Z td) (inject_Z tn * (if Qle_bool (Qabs q) (Qabs p) then Qabs p else Qabs q)).
+(* model result vs implementation outcome (code, value): 1 = agree, 0 = disagree; also returns the model's outcome code *)
+Definition cmpq (tn td : Z) (r : res Q) (oc m e : Z) : Z * Z :=
+  match r with
+  | Ok q => (0%Z, if (oc =? 0)%Z && close_q tn td q (fl m e) then 1%Z else 0%Z)
+  | Err x => (exn_code x, if (oc =? exn_code x)%Z then 1%Z else 0%Z) end.
+Definition cmpqv (tn td : Z) (q : Q) (m e : Z) : Z * Z := (0%Z, if close_q tn td q (fl m e) then 1%Z else 0%Z).
+Fixpoint all_close (tn td : Z) (qs : list Q) (ps : list (Z * Z)) : bool :=
+  match qs, ps with
+  | [], [] => true
+  | q :: qr, (m, e) :: pr => close_q tn td q (fl m e) && all_close tn td qr pr
+  | _, _ => false end.
